@@ -16,6 +16,9 @@ CHECKS = [
  ("C04", "exploration", "model-based property testing with lifecycle/maintenance operations",
   "Histories interleave data ops with close/create/restore/force_update/offload/fsync/free and index dumps that complete at generated moments (explicit idle waits vs none, 2-5 ms vs 60 s deferred dumps, both runtime flavours); lifecycle results, all queries and filter answers compared with the model after every step.",
   "Interleaving of background dumps with client calls is whatever the scheduler produces between two steps; only step boundaries are controlled."),
+ ("C05", "fault_enumeration", "round-trip property testing around write-path thresholds + generated <=32-bit corruption bursts located with an independent blob parser",
+  "Round trip: generated histories with value lengths centred on the 4 KiB single-pass and 80 KiB background-I/O thresholds (relative to header+meta size), three fill kinds, 7 metadata shapes, compared byte-for-byte through read/read_with/Entry::load/load_data/load_meta in every index state and both runtime flavours, plus an enumerated sweep of lengths 0..8300. Corruption: a stored record's data region is XOR-ed with a <=32-bit burst (storage open, or closed and reopened with/without indexes, validation on/off, quarantine/ignore); every query needing the altered bytes must fail or the blob must have been dropped by a validating init; all other queries must equal the model.",
+  "CRC32C detects every burst of <=32 bits, so 'must be Err' has no probabilistic slack. Only data bytes are altered (the statement's domain); header/meta damage belongs to C06/C16."),
  ("C09", "exploration", "differential property testing of the index through a probe hook (in-memory vs on-disk vs sorted-list model) + enumerated shape sweep",
   "Generated header multisets (11 key lengths, fan-out 5..454, runs around block boundaries, ties, markers) are pushed into the real index, dumped, loaded back and reopened; every lookup kind for present and absent keys is compared in all four stages with an independent sorted-list model. Enumerated sweep of key counts around powers of the fan-out per key length.",
   "Uses the H5 IndexProbe hook (thin wrapper, no logic). Up to 3000 keys / 6000 headers per case; for >300 keys a spread subset of keys plus leaf-boundary keys is queried in the quick tier."),
@@ -25,6 +28,9 @@ CHECKS = [
  ("C15", "exploration", "model-based property testing of accounting values",
   "records_count*, blobs_count, next_blob_id, corrupted_blobs_count compared with the model after every step of generated histories (restore, delete into closed blobs, forced switches, restarts); disk_used compared with the directory listing at every idle point.",
   "The id printed for the active entry of records_count_detailed is not asserted (only its count). disk_used is compared only at idle points (no dump in flight)."),
+ ("C16", "fault_enumeration", "property testing of the offline tools on storage-produced blobs under generated truncation / byte-flip damage per position class",
+  "Blobs produced by generated single-blob histories; undamaged files must pass validate_blob/validate_index, read_index must report exactly the parser's headers, migrate_blob must preserve every record. One generated damage (truncation inside a record per class, or a flipped byte in one of 15 position classes): validate_blob must reject, recovery_blob (skip off/on) must produce a valid blob with every intact record before the damage (and after it when skipping applies), correct blob_offsets, nothing invented, and a Storage opened on the output must serve every contained record with its original bytes.",
+  "Known findings (open): flips in the blob header's version/flags fields and decodable flips in meta bytes are accepted by validate_blob (no checksum covers them); those cases print KNOWN-FINDING and are excluded from the reject clause only."),
 ]
 
 def main():
